@@ -37,7 +37,7 @@ inductive Expr (N : Type) where
 inductive Stmt (N : Type) where
   | assign (attr : N) (e : Expr N) (cond : Bool)
   | superCall (target : Option N) (pos : List (Expr N)) (kw : List (N × Expr N)) (star : Bool) (cond : Bool)
-  | raiseIf
+  | raiseIf (explicit : Bool)   -- explicit = a `raise` / `assert` statement; otherwise a computation that may fail
   | other
   | pure
   deriving Repr
@@ -73,6 +73,8 @@ structure ClassEntry (N : Type) where
   name : N
   external : Bool
   extPositional : List N       -- (external classes) names of the leading positional parameters
+  extKnown : Bool              -- (external classes) `extNames` lists every attribute the class provides
+  extNames : List N
   mro : List N
   init : Option (Init N)
   methods : List (Method N)
@@ -135,7 +137,7 @@ def substExpr (env : List (N × Expr N)) : Expr N → Expr N
 
 inductive Prim (N : Type) where
   | write (a : N) (e : Expr N) (cond : Bool)
-  | raise (always : Bool)
+  | raise (always : Bool) (explicit : Bool)
   | havoc
   deriving DecidableEq, Repr
 
@@ -151,7 +153,7 @@ def flatten (tbl : Table N) : Nat → List N → List (Expr N) → List (N × Ex
   | 0, _, _, _, _ => [.havoc]
   | fuel + 1, chain, pos, kw, cond =>
     match findInit tbl chain with
-    | none => if pos.isEmpty && kw.isEmpty then [] else [.raise true]
+    | none => if pos.isEmpty && kw.isEmpty then [] else [.raise true true]
     | some (c, rest) =>
       if c.external then
         -- a class outside the package: assumed to follow the sklearn convention for keywords
@@ -161,7 +163,7 @@ def flatten (tbl : Table N) : Nat → List N → List (Expr N) → List (N × Ex
         | none => []
         | some ini =>
           match bindArgs c.name ini pos kw with
-          | none => [.raise true]
+          | none => [.raise true true]
           | some env =>
             ini.body.flatMap fun st =>
               match st with
@@ -176,7 +178,7 @@ def flatten (tbl : Table N) : Nat → List N → List (Expr N) → List (N × Ex
                       | none => [t]
                   flatten tbl fuel chain' (p.map (substExpr env)) (k.map fun (n, e) => (n, substExpr env e))
                     (cond || cnd)
-              | .raiseIf => [.raise false]
+              | .raiseIf ex => [.raise false ex]
               | .other => [.havoc]
               | .pure => []
 
@@ -232,7 +234,7 @@ def runPrims {V : Type} (I : Interp N V) (args : N → V) : Nat → List (Prim N
   | i, .write a e c :: rest, s =>
     if c && !I.choice i then runPrims I args (i + 1) rest s
     else runPrims I args (i + 1) rest (assocSet a (evalExpr I args e) s)
-  | i, .raise always :: rest, s =>
+  | i, .raise always _ :: rest, s =>
     if always || I.choice i then none else runPrims I args (i + 1) rest s
   | i, .havoc :: rest, s => runPrims I args (i + 1) rest (I.havoc i s)
 
@@ -250,7 +252,7 @@ def absStep (a : N) : AbsVal N → Prim N → AbsVal N
   | st, .write b e c =>
     if b = a then (if c then (if st = .is e then st else .unknown) else .is e) else st
   | _, .havoc => .unknown
-  | st, .raise _ => st
+  | st, .raise _ _ => st
 
 def absFrom (a : N) (st : AbsVal N) (ps : List (Prim N)) : AbsVal N := ps.foldl (absStep a) st
 def absOf (a : N) (ps : List (Prim N)) : AbsVal N := absFrom a .absent ps
@@ -262,7 +264,11 @@ def AbsRel {V : Type} (I : Interp N V) (args : N → V) (a : N) : AbsVal N → L
   | .unknown, _ => True
 
 def mayRaise (ps : List (Prim N)) : Bool :=
-  ps.any fun | .raise _ => true | _ => false
+  ps.any fun | .raise _ _ => true | _ => false
+
+/-- the constructor contains a `raise` / `assert`, or a call that cannot succeed -/
+def validates (ps : List (Prim N)) : Bool :=
+  ps.any fun | .raise _ ex => ex | _ => false
 
 inductive PStatus where
   | stored | missing | unknown
@@ -293,7 +299,8 @@ def resolveMethod (tbl : Table N) : List N → N → MRes N
     match findClass tbl k with
     | none => resolveMethod tbl rest m
     | some c =>
-      if c.external then .external
+      if c.external then
+        (if c.extKnown && !c.extNames.contains m then resolveMethod tbl rest m else .external)
       else match findMethod c.methods m with
         | some mm => .found k mm rest
         | none => resolveMethod tbl rest m
@@ -467,6 +474,7 @@ structure Summary (N : Type) where
   params : List N
   ctor : List PStatus            -- one per parameter, same order
   mayRaise : Bool
+  validates : Bool               -- an explicit raise / assert in the constructor chain
   varargs : Bool                 -- the signature swallows arguments that get_params cannot return
   freshUnfitted : Bool
   getImpl : Impl N
@@ -487,6 +495,7 @@ def summarize (tbl : Table N) (fitAttr fitName : N) (applyMethods : List N) (cls
   { params := params
     ctor := params.map (pstatus prims)
     mayRaise := mayRaise prims
+    validates := validates prims
     varargs := ctorVarargs tbl cls
     freshUnfitted := absOf fitAttr prims = .is (.lit false)
     getImpl := fixStore tbl mro params (resolveImpl tbl (·.getImpl) params mro)
@@ -494,7 +503,7 @@ def summarize (tbl : Table N) (fitAttr fitName : N) (applyMethods : List N) (cls
     guards := applyMethods.map fun m =>
       match inlineMethod tbl fitAttr cls m with
       | none => .absent
-      | some es => if guardScan es then .guarded else .unguarded
+      | some es => if effAbstract es then .absent else if guardScan es then .guarded else .unguarded
     fitWrites := params.filter fun p => (effWrites fitEffs).contains p
     fitUnknown := effUnknown fitEffs
     fitSetsFitted := (effWrites fitEffs).contains fitAttr
@@ -752,13 +761,16 @@ def setVal : Nat → Val N → List (Path N × Val N) → Except Err (Val N)
           match store with
           | none => .ok ps2
           | some st =>
-            match ps2.lookup st with
+            -- `valid_params[name]` are the component objects present BEFORE this call's `setattr`s
+            match ps.lookup st with
             | some (.named items) =>
               match items.mapLastM (fun k v =>
                   let g := groupOf k kvs
                   if g.isEmpty then .ok v else setVal fuel v g) with
               | .error e => .error e
-              | .ok items' => .ok (ps2.replace st (.named items'))
+              | .ok items' =>
+                -- if the list itself was replaced in this call the updated components are orphans
+                if kvs.any (isBare st) then .ok ps2 else .ok (ps2.replace st (.named items'))
             | _ => .ok ps2
     match impl with
     | .abstr => .error .type
